@@ -204,6 +204,7 @@ func genC19(o *hx.Out, tier string) {
 		panic("enum registry is empty: harness/cmd/extract did not generate zz_enums_gen.go")
 	}
 	for _, e := range enumRegistry {
+		e := e // closures rendered later keep this entry
 		key := e.Pkg + "." + e.Name
 		var ls, vs []string
 		for _, l := range e.Labels {
@@ -247,6 +248,21 @@ func genC19(o *hx.Out, tier string) {
 				return hx.HexS(txt) + " -> " + u(back)
 			})
 			o.Add(class, impl, "ert", key, u(v))
+			// and once more with the slice MarshalText returned kept and parsed only later
+			if e.MarshalRaw != nil && strings.Contains(impl, " -> ") && !strings.Contains(impl, "CHANGED") {
+				if raw, err := e.MarshalRaw(v); err == nil {
+					o.AddLater(class+", text kept", func() string {
+						return hx.Safe(func() string {
+							txt := string(raw)
+							back, err := e.Unmarshal(txt)
+							if err != nil {
+								return hx.HexS(txt) + " -> err"
+							}
+							return hx.HexS(txt) + " -> " + u(back)
+						})
+					}, "ert", key, u(v))
+				}
+			}
 		}
 		rt("zero", 0)
 		var flags []uint64
